@@ -5,7 +5,8 @@
 package mongodb
 
 // A datatype document as the service layer relies on it.
-//@ pred docWF(d *schema.DatatypeDoc) = d.RWClients != nil && d.ROClients != nil && (forall c string :: (c in d.RWClients ==> d.RWClients[c] != nil && d.RWClients[c].CP != nil) && (c in d.ROClients ==> d.ROClients[c] != nil && d.ROClients[c].CP != nil))
+//@ pred cpOK(cp *model.CheckPoint) = cp != nil && cp.Sseq < 4611686018427387904 && cp.Cseq < 4611686018427387904
+//@ pred docWF(d *schema.DatatypeDoc) = d.RWClients != nil && d.ROClients != nil && (forall c string :: (c in d.RWClients ==> d.RWClients[c] != nil && cpOK(d.RWClients[c].CP) && d.RWClients[c].CP.Sseq <= d.Sseq.End) && (c in d.ROClients ==> d.ROClients[c] != nil && cpOK(d.ROClients[c].CP) && d.ROClients[c].CP.Sseq <= d.Sseq.End))
 
 // the checkpoints recorded in a datatype document are objects of their own (decoded from BSON):
 // never the checkpoint object of the request being served
@@ -19,16 +20,19 @@ package mongodb
 //@   mode math
 //@   ensures result1 != nil ==> result0 == nil
 //@   ensures result0 != nil ==> fresh(result0) && result0.Key == key && result0.CollectionNum == collectionNum && docWF(result0)
+//@   ensures[inv-log] result0 != nil ==> result0.Sseq.End == G.stored && G.stored < 4611686018427387904
 //@   ensures result0 != nil ==> (forall c string :: (c in result0.RWClients ==> fresh(result0.RWClients[c].CP)) && (c in result0.ROClients ==> fresh(result0.ROClients[c].CP)))
-//@   modifies schema.DatatypeDoc.*, schema.SubscribedClientDoc.*, map[string]*schema.SubscribedClientDoc, alloc
+//@   modifies alloc
 
 //@ func (*MongoCollections).GetDatatype
 //@   trusted MongoDB FindOne with filter {_id} + BSON decode
 //@   mode math
 //@   ensures result1 != nil ==> result0 == nil
 //@   ensures result0 != nil ==> fresh(result0) && result0.DUID == duid && docWF(result0)
+//@   ensures[inv-log] result0 != nil ==> result0.Sseq.End == G.stored && G.stored < 4611686018427387904
+//@   ensures[inv-log] result0 == nil && result1 == nil ==> G.stored == 0
 //@   ensures result0 != nil ==> (forall c string :: (c in result0.RWClients ==> fresh(result0.RWClients[c].CP)) && (c in result0.ROClients ==> fresh(result0.ROClients[c].CP)))
-//@   modifies schema.DatatypeDoc.*, schema.SubscribedClientDoc.*, map[string]*schema.SubscribedClientDoc, alloc
+//@   modifies alloc
 
 // Ghost view of the operations collection for the datatype being served: G.stored is the number
 // of stored operations. The induction hypothesis of C06 (Inv_log: ids duid:1..stored, sseq i at
@@ -42,7 +46,7 @@ package mongodb
 //@   ensures len(result0) == len(result1)
 //@   ensures forall i int :: 0 <= i && i < len(result0) ==> result0[i] != nil && result0[i].ID != nil && result1[i] == from + i && result0[i].$sseq == from + i
 //@   ensures result2 == nil && to == constants.InfinitySseq ==> len(result0) == (from <= G.stored ? G.stored - from + 1 : 0)
-//@   modifies alloc, model.Operation.$sseq
+//@   modifies alloc
 
 //@ func (*MongoCollections).InsertOperations
 //@   trusted MongoDB InsertMany (all-or-error as far as the reply tells)
